@@ -74,6 +74,20 @@ func init() {
 		if !r.Quick() {
 			hdepth = 3
 		}
+		// SCHED: two writers next to a reader that follows its tokens (all interleavings up to the preemption bound)
+		{
+			pool := model.Pool(0)
+			pi := func(n string) int { return model.PoolIndex(pool, n) }
+			rd := VOp{K: "tokread", DS: "A", L: 0}
+			sc := SchedScenario{Name: "R1-two-writers-vs-token-reader", Datasets: []string{"A"}, IDs: vIDs, Oracle: "tokens",
+				Pre: []VOp{{K: "batch", DS: "A", Ents: []VEnt{{"e1", pi("v1")}}}},
+				Threads: [][]VOp{{{K: "batch", DS: "A", Ents: []VEnt{{"e2", pi("v1")}}}}, {{K: "batch", DS: "A", Ents: []VEnt{{"e3", pi("v2")}}}}, {rd, rd, rd}}}
+			bound, sb := 1, 60
+			if !r.Quick() {
+				bound, sb = 2, 900
+			}
+			engine.RunSched(r, engine.SchedSpec{Name: sc.Name, WorkerArgs: []string{"worker", "sched-store"}, Scenario: sc, Bound: bound, Horizon: 1500, BudgetS: sb})
+		}
 		engine.RunSeq(r, engine.SeqSpec{Name: "c02-http", WorkerArgs: []string{"worker", "http-store"}, Alphabet: vOpsJSON(writes), Params: params, Depth: hdepth, Budget: budget})
 	})
 
@@ -81,7 +95,7 @@ func init() {
 		r.Rule = "SEQ: every sequence of reference-shaped writes up to the stated depth; after every history all 216 relationship queries (3 start ids x {p,q,*} x {out,in} x 4 scopes) x limits {unlimited,1,2 following continuations} plus multi-start queries are compared as sets with the graph implied by the model's latest versions"
 		r.Assumptions = []string{"badger transactions are linearizable", "result order and related-entity content are not compared here (C01)"}
 		ids2 := []string{"e1", "e2"}
-		refs := poolIdx("e", "r2", "r23", "pq2", "q3", "dr2", "d", "r1", "r32", "psa", "pas")
+		refs := poolIdx("e", "r2", "r23", "pq2", "q3", "dr2", "d", "r1", "r32", "psa", "pas", "r223")
 		alpha := vWriteAlphabet(vDS, ids2, refs, poolIdx("r2", "dr2", "e"), [][2]int{})
 		alpha = append(alpha, VOp{K: "txn", Parts: map[string][]VEnt{"A": {{"e1", refs[1]}}, "B": {{"e1", refs[5]}}}})
 		params := storeParams("c03", vDS, vIDs)
@@ -100,7 +114,7 @@ func init() {
 			engine.RunSeq(r, engine.SeqSpec{Name: "c03-http", WorkerArgs: []string{"worker", "http-store"}, Alphabet: vOpsJSON(hs), Params: params, Depth: hdepth, Budget: budget})
 		}
 		if r.Quick() {
-			small := vWriteAlphabet(vDS, []string{"e1"}, poolIdx("r2", "dr2", "pq2", "e", "r23", "r3"), poolIdx("r2", "dr2"), nil)
+			small := vWriteAlphabet(vDS, []string{"e1"}, poolIdx("r2", "dr2", "pq2", "e", "r23", "r3", "r223"), poolIdx("r2", "dr2"), nil)
 			small = append(small, VOp{K: "batch", DS: "A", Ents: []VEnt{{"e2", refs[7]}}})
 			engine.RunSeq(r, engine.SeqSpec{Name: "c03-narrow", WorkerArgs: []string{"worker", "store"}, Alphabet: vOpsJSON(small), Params: params, Depth: 3, Budget: 60 * time.Second})
 		}
